@@ -10,6 +10,7 @@ Two specifications decide it:
     Each behaviour is replayed on a real SIM-like model and validated by Names_Trace.
 """
 import json
+import os
 
 from harness import core, modelcheck
 
@@ -23,24 +24,38 @@ def names_job(beh, seed):
     from sfc_models.sector import Sector, Market
     from sfc_models.sector_definitions import ConsolidatedGovernment, Household, FixedMarginBusiness, TaxFlow
     from harness import modelkit, modelprops as mp, project
+    import random as _random
     reqs = beh['requests']
+    rng = _random.Random(seed)
     m = Model()
     c = Country(m, 'C', currency='C')
     objs = {}
-    objs['GOV'] = ConsolidatedGovernment(c, 'GOV')
-    objs['HH'] = Household(c, 'HH')
-    objs['BUS'] = FixedMarginBusiness(c, 'BUS')
-    objs['TF'] = TaxFlow(c, 'TF', taxrate=0.2)
-    objs['LAB'] = Market(c, 'LAB')
-    objs['GOOD'] = Market(c, 'GOOD')
+    makers = {'GOV': lambda: ConsolidatedGovernment(c, 'GOV'), 'HH': lambda: Household(c, 'HH'),
+              'BUS': lambda: FixedMarginBusiness(c, 'BUS'), 'TF': lambda: TaxFlow(c, 'TF', taxrate=0.2),
+              'LAB': lambda: Market(c, 'LAB'), 'GOOD': lambda: Market(c, 'GOOD')}
+
+    def need(code):
+        if code not in objs:
+            objs[code] = makers[code]()
+        return objs[code]
+    # the sectors the probes are written into exist from the start; the others appear in a seed-chosen order, some
+    # only after the first names have been handed out (and after an unrelated Model() has been created)
+    need('HH')
+    need('GOOD')
+    pending = [k for k in ('GOV', 'BUS', 'TF', 'LAB')]
+    rng.shuffle(pending)
+    for _ in range(rng.randint(0, 4)):
+        need(pending.pop())
+    intended = []
     events = []
     counter = [0]
 
     def embed(r, when):
-        owner = objs[r['var'][0]]
+        owner = need(r['var'][0])
         name = owner.GetVariableName(r['var'][1])
         counter[0] += 1
         n = counter[0]
+        intended.append((n, r['place'], r['var'][0], r['var'][1]))
         got = name.startswith('_') and '__' in name and name.split('__')[0][1:].isdigit()
         place = r['place']
         if place == 'sector_eq':
@@ -63,8 +78,15 @@ def names_job(beh, seed):
             for r in late:
                 embed(r, 'coded')
 
-    for r in early:
+    for i, r in enumerate(early):
+        if rng.random() < 0.5:
+            Model()      # an unrelated model created while this one is under construction must change nothing
+        for _ in range(rng.randint(0, 2)):
+            if pending:
+                need(pending.pop())
         embed(r, 'construct')
+    while pending:
+        need(pending.pop())
     objs['PROBE'] = Probe(c, 'PRB', has_F=False)
     objs['GOV'].SetExogenous('DEM_GOOD', '[0.] + [20.]*5')
     m.MaxTime = 2
@@ -90,10 +112,42 @@ def names_job(beh, seed):
                       canonical=not (cl['noncanonical'] or cl['missing'] or cl['extra']), defined_once=not cl['dupes'],
                       meaning=not mp.meaning_preserved(b, seed=seed))
             info['closure'] = cl
+            # every probe still refers to the variable whose name was requested (however the name was spelt then)
+            wrong = []
+            rnd = _random.Random(seed + 1)
+            from fractions import Fraction
+            env = {nm: Fraction(rnd.randint(1, 9), rnd.randint(1, 7)) for nm in sorted(b.system.defined() | {'k'})}
+            for (n, place, own, loc) in intended:
+                target = '%s__%s' % (own, loc)
+                host = {'sector_eq': 'HH__PROBE%d', 'term': 'HH__PROBE%d', 'supplier_rule': 'GOOD__PROBE%d',
+                        'global': 'PROBE%d'}[place] % n
+                if host not in b.system.endo or target not in env:
+                    wrong.append(host)
+                    continue
+                want = {'sector_eq': Fraction(2) * env[target], 'supplier_rule': Fraction(1, 2) * env[target],
+                        'global': Fraction(3) * env[target],
+                        'term': env[target] * env.get('HH__AlphaFin', Fraction(0))}[place]
+                try:
+                    got = mp._eval(b.system.endo[host], env)
+                except Exception:  # noqa
+                    got = None
+                if got != want:
+                    wrong.append(host)
+            if wrong:
+                ev['meaning'] = False
+                info['probe_refers_elsewhere'] = wrong
         except project.ProjectionError as e:
             ev.update(closed=False)
             info['projection'] = str(e)
     return events + [ev], info
+
+
+def _names_job_star(job):
+    try:
+        return names_job(job[0], job[1])
+    except Exception as e:  # noqa
+        import traceback
+        return 'names_job failed: ' + traceback.format_exc()[-600:], None
 
 
 def run_names(rep):
@@ -109,23 +163,41 @@ def run_names(rep):
     for b in behs:
         seen[core.canonical(b)] = b
     behs = list(seen.values())
-    traces, infos = [], []
+    if not any(r['placeholder'] for b in behs for r in b['requests']):
+        raise core.MachineryError('Names run emitted no behaviour with a request made before main(): vacuous')
+    traces, infos, cases = [], [], []
+    per = 2 if rep.tier == 'quick' else 8
+    jobs = []
     for i, b in enumerate(behs):
-        ev, info = names_job(b, rep.seed)
-        traces.append((i, ev))
+        early = any(r['placeholder'] for r in b['requests'])
+        for j in range(per if early else 1):
+            # the seed fixes when the other sectors (and unrelated Model objects) are created relative to the requests
+            jobs.append((b, rep.seed + 7919 * i + j, early))
+    import concurrent.futures
+    with concurrent.futures.ProcessPoolExecutor(max_workers=min(16, os.cpu_count() or 4)) as ex:
+        results = list(ex.map(_names_job_star, jobs, chunksize=max(1, len(jobs) // 64)))
+    for (b, oseed, early), (ev, info) in zip(jobs, results):
+        if isinstance(ev, str):
+            raise core.MachineryError(ev)
+        case = {'names_behaviour': b, 'order_seed': oseed}
+        traces.append((len(traces), ev))
         infos.append(info)
-        rep.add_case({'names_behaviour': b}, any(r['placeholder'] for r in b['requests']))
+        cases.append(case)
+        rep.add_case(case, early)
     verdicts, st, tr = core.validate_traces('MC_Names_Trace', 'MC_Names_Trace.cfg', traces, tag='c05n')
     rep.traces += len(traces)
     rep.extra['names_behaviours'] = len(behs)
-    for i, b in enumerate(behs):
+    rep.extra['names_executions'] = len(traces)
+    for i, case in enumerate(cases):
+        b = case['names_behaviour']
         for cl in [x for x in verdicts[i].split(':', 1)[1].split(',') if x]:
             if cl.startswith('C05_'):
                 places = sorted({r['place'] for r in b['requests'] if r['placeholder']})
-                rep.violate(cl, '%s:placeholder-embedded-in:%s' % (cl, '+'.join(places) or 'none'),
-                            {'names_behaviour': b}, detail=json.dumps(infos[i], default=str)[:500])
+                why = '+'.join(sorted(k for k in ('probe_refers_elsewhere', 'main_error', 'projection') if k in infos[i]))
+                rep.violate(cl, '%s:placeholder-embedded-in:%s%s' % (cl, '+'.join(places) or 'none', ':' + why if why else ''),
+                            case, detail=json.dumps(infos[i], default=str)[:500])
             elif cl.startswith('drift_'):
-                rep.add_drift(cl, {'names_behaviour': b})
+                rep.add_drift(cl, case)
 
 
 def run(rep):
@@ -141,7 +213,7 @@ def replay(path):
     if 'names_behaviour' in data['case']:
         rep = core.Report(PROP, 'quick', 0)
         b = data['case']['names_behaviour']
-        ev, info = names_job(b, 0)
+        ev, info = names_job(b, data['case'].get('order_seed', 0))
         verdicts, st, tr = core.validate_traces('MC_Names_Trace', 'MC_Names_Trace.cfg', [(0, ev)], tag='c05n')
         print(json.dumps({'behaviour': b, 'events': ev, 'info': info}, default=str)[:2000])
         bad = [c for c in verdicts[0].split(':', 1)[1].split(',') if c.startswith('C05_')]
